@@ -123,6 +123,9 @@ type Exec struct {
 	ctxRel     map[int][]int
 	raceSeen   map[string]bool
 	raceChecks int
+	onceDone   map[string]bool
+	wgCount    map[string]int
+	syncMaps   map[string]*syncMapState
 }
 
 // environment of the command-line tools (C19): flags, the input file and the
@@ -203,6 +206,9 @@ func (e *Exec) resetPath(prefix []decision) {
 	e.locs = map[string]*locState{}
 	e.ctxRel = map[int][]int{}
 	e.raceSeen = map[string]bool{}
+	e.onceDone = map[string]bool{}
+	e.wgCount = map[string]int{}
+	e.syncMaps = map[string]*syncMapState{}
 }
 
 type Observation struct {
@@ -479,7 +485,13 @@ func (e *Exec) Assert(name string, c *Term) {
 
 func fullName(fn *ssa.Function) string { return fn.String() }
 
+// interpretable library packages (pure Go, loaded with syntax)
+var libPkgs = map[string]bool{"slices": true, "cmp": true}
+
 func inRepo(fn *ssa.Function) bool {
+	if isLib(fn) {
+		return true
+	}
 	p := fn.Package()
 	if p == nil {
 		// synthetic wrappers / instantiations: look at the origin or the receiver
@@ -494,6 +506,14 @@ func inRepo(fn *ssa.Function) bool {
 	return strings.HasPrefix(p.Pkg.Path(), repoMod)
 }
 
+func isLib(fn *ssa.Function) bool {
+	p := fn.Package()
+	if p == nil && fn.Origin() != nil {
+		p = fn.Origin().Package()
+	}
+	return p != nil && libPkgs[p.Pkg.Path()] && fn.Blocks != nil
+}
+
 func (e *Exec) callFunc(fn *ssa.Function, args []Value, free []Value) Value {
 	name := fn.Name()
 	full := fullName(fn)
@@ -505,7 +525,11 @@ func (e *Exec) callFunc(fn *ssa.Function, args []Value, free []Value) Value {
 		}
 		return e.callFunc(h, args, nil)
 	}
-	if inRepo(fn) {
+	if isLib(fn) {
+		if r, ok := e.libStub(fn, args); ok {
+			return r
+		}
+	} else if inRepo(fn) {
 		if r, ok := e.intrinsic(fn, name, args); ok {
 			return r
 		}
@@ -1258,7 +1282,14 @@ func (e *Exec) makeSlice(fr *frame, x *ssa.MakeSlice) Value {
 		return &SliceV{obj: o, off: e.c64(0), len: n, cap: cp}
 	}
 	if n.op != OpConst || cp.op != OpConst {
-		e.unsupported("make of non-byte slice with symbolic length")
+		// a small symbolic length (e.g. len of a bounded map): split by value
+		same := n == cp
+		n = e.enumSmall(n, 16, "make: slice length")
+		if same {
+			cp = n
+		} else {
+			cp = e.enumSmall(cp, 16, "make: slice capacity")
+		}
 	}
 	et := x.Type().Underlying().(*types.Slice).Elem()
 	a := &ArrayV{e: make([]Value, int(cp.val))}
@@ -1266,6 +1297,21 @@ func (e *Exec) makeSlice(fr *frame, x *ssa.MakeSlice) Value {
 		a.e[i] = e.zero(et)
 	}
 	return &SliceV{obj: e.newObj(a, "make([]T)"), off: e.c64(0), len: n, cap: cp}
+}
+
+// enumSmall forks over the values 0..max of a symbolic integer.
+func (e *Exec) enumSmall(t *Term, max int, what string) *Term {
+	if t.op == OpConst {
+		return t
+	}
+	for v := 0; v <= max; v++ {
+		c := e.st.Const(t.w, uint64(v))
+		if e.Branch(e.st.Eq(t, c)) {
+			return c
+		}
+	}
+	e.unsupported(what + " is symbolic and not within 0.." + fmt.Sprint(max))
+	return nil
 }
 
 func (e *Exec) typeAssert(fr *frame, x *ssa.TypeAssert) Value {
@@ -1405,6 +1451,55 @@ func (e *Exec) builtin(fr *frame, name string, c *ssa.CallCommon, args []Value) 
 		return e.appendBuiltin(fr, c, args)
 	case "close":
 		e.chanClose(args[0])
+		return nil
+	case "min", "max":
+		r := args[0].(*Term)
+		_, signed, _ := intWidth(c.Args[0].Type())
+		for _, a := range args[1:] {
+			t := a.(*Term)
+			var lt *Term
+			if signed {
+				lt = e.st.Cmp(OpSlt, t, r)
+			} else {
+				lt = e.st.Cmp(OpUlt, t, r)
+			}
+			if name == "max" {
+				lt = e.st.Not(e.st.Or(lt, e.st.Eq(t, r)))
+			}
+			r = e.st.Ite(lt, t, r)
+		}
+		return r
+	case "clear":
+		switch x := args[0].(type) {
+		case *MapV:
+			if x.m != nil {
+				if x.m.global != "" {
+					e.globalW[x.m.global] = true
+				}
+				x.m.present = e.st.ConstArr(ArrSort(x.m.kw, 0), 0)
+			}
+			return nil
+		case *SliceV:
+			if x.obj == nil {
+				return nil
+			}
+			if x.len.op != OpConst || x.off.op != OpConst {
+				e.unsupported("clear of a slice with symbolic bounds")
+			}
+			if bb, ok := e.load0(&PtrV{obj: x.obj, path: x.path}).(*BytesV); ok {
+				for i := 0; i < int(x.len.val); i++ {
+					bb.arr = e.st.StoreArr(bb.arr, e.c64(int64(int(x.off.val)+i)), e.st.Const(8, 0))
+				}
+				return nil
+			}
+			av := e.load0(&PtrV{obj: x.obj, path: x.path}).(*ArrayV)
+			et := c.Args[0].Type().Underlying().(*types.Slice).Elem()
+			for i := 0; i < int(x.len.val); i++ {
+				av.e[int(x.off.val)+i] = e.zero(et)
+			}
+			return nil
+		}
+		e.unsupported("clear")
 		return nil
 	case "print", "println":
 		return nil
